@@ -25,8 +25,9 @@ from harness.lib import coqbuild
 from harness.lib.values import DOMAIN, LITERALS, NAN, same, val_json, val_to_coq, val_unjson, vals_to_coq
 
 LEVEL = "proof"
-THEOREMS = ["C13_prune_sound", "C13_scan_equal", "C13_bounds_true"]
+THEOREMS = ["C13_prune_sound", "C13_scan_equal", "C13_bounds_true", "C13_bound_roundtrip"]
 REQ = ["DS.Model.Value", "DS.Gen.GenPrune", "DS.Model.Prune"]
+REQB = ["DS.Model.Value", "DS.Model.BoundPrim", "DS.Gen.GenBound", "DS.Model.Bound"]
 
 MANIFEST_ENTRY = {
     "level_text": "C13_prune_sound / C13_scan_equal / C13_bounds_true proved in Coq for every file content, schema, filter "
@@ -425,6 +426,25 @@ def oracle_codec(ctx) -> None:
                           {"value": val_json(v), "decoded": repr(back)})
 
 
+def corr_codec(ctx) -> None:
+    """Tag chosen by the real _encode_bound and value decoded by the real _decode_bound vs the model's enc / dec."""
+    import json as _json
+    from datashard.file_manager import FileManager
+    vals = [v for v in CODEC_VALUES if not (isinstance(v, int) and not isinstance(v, bool) and abs(v) > 2**200)]
+    exprs = [f"(fst (enc {val_to_coq(v)}), dec (enc {val_to_coq(v)}))" for v in vals]
+    want = coqbuild.coq_eval(REQB, [val_to_coq(v) for v in vals])
+    got = coqbuild.coq_eval(REQB, exprs)
+    bad = []
+    for v, (tag, decoded), w in zip(vals, got, want):
+        raw = FileManager._encode_bound(v)
+        impl_tag = _json.loads(raw)["t"]
+        back = FileManager._decode_bound(raw)
+        if impl_tag != tag or decoded != w or not same(v, back):
+            bad.append({"value": val_json(v), "impl_tag": impl_tag, "model_tag": tag, "impl_roundtrip_ok": same(v, back),
+                        "model_roundtrip_ok": decoded == w})
+    ctx.correspondence("codec", len(vals), bad)
+
+
 # ---------------------------------------------------------------------------------- driver
 def run(ctx) -> None:
     ctx.rule = ("correspondence: exhaustive/sampled small domains over 9 column kinds x 40 cross-kind literals x 10 operators; "
@@ -432,13 +452,15 @@ def run(ctx) -> None:
                 "end-to-end tables (pruned vs unpruned scans); a case is distinct by its full (values, operator, literal) tuple")
     ctx.trusted_base += [
         "translator/gen_prune.py (Python ast -> Gallina for _file_may_match's try block; loop skeleton pinned by golden AST)",
+        "translator/gen_bound.py (_encode_bound isinstance chain, _decode_bound tag dispatch; JSON wrapping pinned by golden AST)",
+        "assumption JSON-exact: json round trip of bool/int/float(NaN, inf, -0.0)/str payloads and isoformat/fromisoformat of naive temporals are exact (validated by the codec oracle)",
         "assumption PA-exact: pyarrow evaluates a compiled filter to exactly Model/Prune.v `selected` or raises (validated by 'select' correspondence)",
         "assumption: an Arrow column holds values of one kind (hypothesis `homogeneous`)",
         "harness: harness/props/c13.py, harness/lib/coqbuild.py (vm_compute evaluation of the model on generated cases)",
     ]
     ctx.assumptions += ["field ids unique within a schema (enforced by Schema.__post_init__)",
                         "bounds looked up under the id they were stored under (C11)"]
-    ok = ctx.proofs(THEOREMS, gen_files=["GenPrune.v"])
+    ok = ctx.proofs(THEOREMS, gen_files=["GenPrune.v", "GenBound.v"])
     ctx.allow_axioms([])
     # implementation-only oracles always run: they are the search for a concrete failing input
     oracle_unsound(ctx)
@@ -450,6 +472,7 @@ def run(ctx) -> None:
         corr_prune(ctx)
         corr_bounds(ctx)
         corr_select(ctx)
+        corr_codec(ctx)
     except RuntimeError as e:
         ctx.proof_problems.append("model evaluation failed: " + str(e)[:600])
 
